@@ -510,6 +510,19 @@ struct Issued {
     result_ok: bool,
     err: String,
     reply: Option<Reply>,
+    /// The client has taken something out of `reply` already (clients keep reading their channels: a daemon
+    /// blocks on an event channel that is full and never read, by design of the crate).
+    got: bool,
+}
+
+fn drain_replies(issued: &mut [Issued]) {
+    for i in issued.iter_mut() {
+        if let Some(r) = &i.reply {
+            let mut got = i.got;
+            let _ = r.resolved(&mut got);
+            i.got = got;
+        }
+    }
 }
 
 pub fn run_case_b(seed: u64, l: &mut Local) {
@@ -527,12 +540,14 @@ pub fn run_case_b(seed: u64, l: &mut Local) {
     let calls_per_client = 5 + rng.usize(30);
     let shutdown_after_us = rng.below(6000);
     let shutdown_seen = std::sync::Arc::new(std::sync::atomic::AtomicBool::new(false));
+    let over = std::sync::Arc::new(std::sync::atomic::AtomicBool::new(false));
     l.distinct
         .insert(util::fnv_str(&format!("B|{clients}|{}|{}", calls_per_client / 5, shutdown_after_us / 500)));
     let mut handles = Vec::new();
     for c in 0..clients {
         let d = daemon.clone();
         let seen = shutdown_seen.clone();
+        let over = over.clone();
         let mut r = Rng::new(util::mix(seed, c as u64 + 1));
         handles.push(std::thread::spawn(move || {
             let mut issued: Vec<Issued> = Vec::new();
@@ -556,18 +571,29 @@ pub fn run_case_b(seed: u64, l: &mut Local) {
                     }
                 }));
                 match res {
-                    Ok((what, Ok(reply))) => issued.push(Issued { what, after_shutdown_seen: after, result_ok: true, err: String::new(), reply }),
-                    Ok((what, Err(e))) => issued.push(Issued { what, after_shutdown_seen: after, result_ok: false, err: e, reply: None }),
-                    Err(_) => issued.push(Issued { what: "PANIC", after_shutdown_seen: after, result_ok: false, err: util::take_thread_panic().map(|p| p.msg).unwrap_or_default(), reply: None }),
+                    Ok((what, Ok(reply))) => issued.push(Issued { what, after_shutdown_seen: after, result_ok: true, err: String::new(), reply, got: false }),
+                    Ok((what, Err(e))) => issued.push(Issued { what, after_shutdown_seen: after, result_ok: false, err: e, reply: None, got: false }),
+                    Err(_) => issued.push(Issued { what: "PANIC", after_shutdown_seen: after, result_ok: false, err: util::take_thread_panic().map(|p| p.msg).unwrap_or_default(), reply: None, got: false }),
                 }
+                drain_replies(&mut issued);
                 if r.chance(1, 3) {
                     std::thread::sleep(Duration::from_micros(r.below(300)));
                 }
+            }
+            // keep reading until the main thread has its answer from shutdown
+            while !over.load(std::sync::atomic::Ordering::SeqCst) {
+                drain_replies(&mut issued);
+                std::thread::sleep(Duration::from_micros(500));
             }
             issued
         }));
     }
     std::thread::sleep(Duration::from_micros(shutdown_after_us));
+    // one run in eight: shutdown comes when services are announced and events have been flowing
+    if util::mix(seed, 0xB8) % 8 == 0 {
+        std::thread::sleep(Duration::from_millis(900 + util::mix(seed, 0xB9) % 1600));
+        l.act("X3b-late-shutdown");
+    }
     // the command queue may be full (Error::Again): try again, as a client would
     let mut sd = daemon.shutdown();
     let t_try = Instant::now();
@@ -588,6 +614,7 @@ pub fn run_case_b(seed: u64, l: &mut Local) {
         },
         Err(e) => l.inconclusive.push(format!("shutdown refused: {e}")),
     }
+    over.store(true, std::sync::atomic::Ordering::SeqCst);
     let mut all: Vec<Issued> = Vec::new();
     for hd in handles {
         match hd.join() {
@@ -621,7 +648,7 @@ pub fn run_case_b(seed: u64, l: &mut Local) {
     let deadline = Instant::now() + Duration::from_secs(5);
     let mut pending: Vec<(&'static str, bool, &Reply, bool)> = all
         .iter()
-        .filter_map(|i| i.reply.as_ref().map(|r| (i.what, i.after_shutdown_seen, r, false)))
+        .filter_map(|i| i.reply.as_ref().map(|r| (i.what, i.after_shutdown_seen, r, i.got)))
         .collect();
     loop {
         pending.retain_mut(|(_, _, r, got)| !r.resolved(got));
